@@ -216,7 +216,7 @@ PrepareOf(i) ==
         allzero |-> RIsZero(sumr),
         res |-> Zero, dist |-> Zero, used |-> Zero, rr |-> sumr,
         exc |-> <<>>, defs |-> <<>>, out |-> <<>>, rem |-> Zero,
-        d |-> <<>>, zh |-> {}, unc |-> FALSE, partial |-> 0, splitlost |-> FALSE, splittie |-> FALSE]
+        d |-> <<>>, zh |-> {}, unc |-> FALSE, partial |-> 0, splitlost |-> FALSE, splittie |-> FALSE, earlylost |-> FALSE]
 
 \* ---- Reserve: the reservation loop of _distribute_power
 RECURSIVE ReserveLoop(_, _)
@@ -305,6 +305,10 @@ SplitOf(st) ==
     IN [st EXCEPT !.stage = "split", !.d = [g \in 1..st.n |-> sp[g][1]],
                   !.rem = RAdd(@, RSumS([g \in 1..st.n |-> sp[g][2]])),
                   !.splitlost = \E g \in 1..st.n : ~RIsZero(sp[g][2]),
+                  \* a multi-inverter set could not place part of its share and another multi-inverter
+                  \* set comes after it (the unplaced power of several sets has to be added up)
+                  !.earlylost = \E k \in 1..Len(st.out), k2 \in 1..Len(st.out) :
+                                    k < k2 /\ ~RIsZero(sp[st.out[k][1]][2]) /\ Len(st.S[st.out[k2][1]].iex) > 1,
                   !.splittie = \E g \in 1..st.n : sp[g][3]]
 
 \* all batteries full / empty in the requested direction: nothing is distributed (lines 483-490)
@@ -467,7 +471,7 @@ Greedy == pc = "excess" /\ w' = GreedyOf(w) /\ pc' = "greedy" /\ UNCHANGED inp
 Split == pc = "greedy" /\ w' = SplitOf(w) /\ pc' = "split" /\ UNCHANGED inp
 Report ==
     /\ pc = "split" /\ w' = ReportOf(w) /\ pc' = "done" /\ UNCHANGED inp
-    /\ Emit([g |-> inp.groups, p |-> inp.power, e |-> inp.exp, dev |-> DevNames(w'), az |-> w.allzero, np |-> w'.partial])
+    /\ Emit([g |-> inp.groups, p |-> inp.power, e |-> inp.exp, dev |-> DevNames(w'), az |-> w.allzero, np |-> w'.partial, el |-> w'.earlylost])
 
 Next == Install \/ Prepare \/ AllZero \/ Reserve \/ Cover \/ AddExcess \/ Greedy \/ Split \/ Report
 
